@@ -340,3 +340,101 @@ def loop_body_paths(g, head, limit=4000):
     for s in starts:
         dfs(s, frozenset(), [])
     return paths
+
+
+# ---- ghost case splits ---------------------------------------------------------------------------------
+
+def ghost_refiner(specs):
+    """refine hook from specs = [(ghost, matcher(test, frame) -> True (test <=> ghost) | False (test <=> not ghost) | None)]"""
+    def h(an, test, truth, st, frame):
+        for ghost, m in specs:
+            r = m(test, frame)
+            if r is None:
+                continue
+            want = 'T' if (truth if r else not truth) else 'F'
+            cur = st.fields.get(ghost, '?')
+            if cur in ('T', 'F') and cur != want:
+                return None
+            return st.with_field(ghost, want) if cur != want else st
+        return NotImplemented
+    return h
+
+
+def pick_ifexp(e, st, specs, frame):
+    """resolve conditional expressions whose test is recognised by `specs` according to the ghost values in st"""
+    while isinstance(e, ast.IfExp):
+        test, neg = e.test, False
+        while isinstance(test, ast.UnaryOp) and isinstance(test.op, ast.Not):
+            test, neg = test.operand, not neg
+        pol = None
+        for ghost, m in specs:
+            r = m(test, frame)
+            if r is not None and st.fields.get(ghost) in ('T', 'F'):
+                pol = (st.fields[ghost] == 'T') == r
+                break
+        if pol is None:
+            return e
+        if neg:
+            pol = not pol
+        e = e.body if pol else e.orelse
+    return e
+
+
+def return_cases(ctx, c, method, specs, extra_locals=None):
+    """values returned by `method` of class c for every assignment of the ghosts in `specs`:
+    dict {tuple of 'T'/'F' per ghost: set of returned expression texts}; conditional expressions on recognised tests are resolved"""
+    from .state import Analysis, State
+    P = ctx.P
+    g = ctx.graph(c, method)
+    ghosts = [gh for gh, _ in specs]
+    an = Analysis(P, g, ghosts)
+    an.refine_hooks.append(ghost_refiner(specs))
+    out = {}
+    for vals in itertools.product('TF', repeat=len(ghosts)):
+        s0 = State(dict(zip(ghosts, vals)))
+        for k, v in (extra_locals or {}).items():
+            s0.locals[(g.top.id, k)] = v
+        res = ctx.explore(an, [s0])
+        texts = set()
+        for n in g.nodes.values():
+            if n.kind == 'return' and n.frame is g.top:
+                for st in res.at(n.id):
+                    v = n.ast.value
+                    texts.add(ast.unparse(pick_ifexp(v, st, specs, n.frame)) if v is not None else 'None')
+        # falling off the end returns None
+        for st in res.exits():
+            path = res.path(g.exit, st)
+            if not any(x.kind == 'return' and x.frame is g.top for x in path):
+                texts.add('None')
+        out[vals] = texts
+    return out
+
+
+def record_helper(P, cls):
+    """(name, [param names without self]) of the private method of `cls` that forwards a label parameter to add_datapoint
+    (e.g. Maintainer._record_work_order_datapoint(label, request)); identified by what it does, not by its name.  None if absent."""
+    for k in cls.mro:
+        for nm, fn in k.methods.items():
+            params = [a.arg for a in fn.args.args if a.arg != 'self']
+            for x in ast.walk(fn):
+                if isinstance(x, ast.Call) and isinstance(x.func, ast.Attribute) and x.func.attr == 'add_datapoint' and x.args and \
+                        isinstance(x.args[0], ast.Name) and x.args[0].id in params:
+                    return nm, params, params.index(x.args[0].id)
+    return None
+
+
+def record_call(cl, helper):
+    """(label, [texts of the other arguments]) if `cl` is a call of the record helper with a constant label"""
+    if helper is None or not isinstance(cl.func, ast.Attribute) or cl.func.attr != helper[0]:
+        return None
+    nm, params, li = helper
+    b = {}
+    for p_, a in zip(params, cl.args):
+        b[p_] = a
+    for kw in cl.keywords:
+        if kw.arg:
+            b[kw.arg] = kw.value
+    lab = b.get(params[li])
+    if not isinstance(lab, ast.Constant):
+        return None
+    return str(lab.value), [ast.unparse(b[p_]) for p_ in params if p_ != params[li] and p_ in b]
